@@ -1256,7 +1256,7 @@ pub fn run(ctx: &Ctx) -> i32 {
                 }
                 let t = rng.usize_below(sites);
                 if let (Some(m), _) = mutate::apply(&prog, rule, t, &mut rng) {
-                    let toks = print::print_program(&m, rng.next_u64());
+                    let toks = print::print_program_suffixed(&m, rng.next_u64());
                     f.prog("generated: rule-breaking edit", "E1", print::render(&toks, Layout::Compact), true);
                 }
             }
